@@ -80,6 +80,7 @@ type sStep struct {
 	Ops       int               // vos mutations during the step (crash points available)
 	Ops2      int               // vos mutations during the recovery after the crash
 	Crashed   bool              // a crash image was taken in this step and the world restarted from it
+	Acked     bool              // (crashed steps) the reception had returned - the sender has its answer - before the crash
 	LogAfter  []string          // receive-log records after the step
 	States    map[string]int    // cache state per file name after the step
 	Hashes    map[string]string // cache hash per file name after the step
@@ -98,6 +99,8 @@ type sim struct {
 	t0      time.Time
 	ftime   time.Time
 	opCount int64
+	acked   int32 // the reception of the current step has returned without error
+	ackedAt int32 // value of acked when the crash image was taken
 	crashAt int64
 	image   string
 	roots   []string
@@ -196,6 +199,8 @@ func (s *sim) apply(a sAction, last bool) bool {
 	}
 	beforeNow := time.Now()
 	atomic.StoreInt64(&s.opCount, 0)
+	atomic.StoreInt32(&s.acked, 0)
+	atomic.StoreInt32(&s.ackedAt, 0)
 	s.image = ""
 	root := w.root
 	if a.K > 0 {
@@ -243,6 +248,8 @@ func (s *sim) apply(a sAction, last bool) bool {
 			file.Time.Time = p.GetFileTime()
 			if err := w.st.Receive(file, bytes.NewReader(data)); err != nil {
 				st.Err = err.Error()
+			} else {
+				atomic.StoreInt32(&s.acked, 1)
 			}
 		})
 	case "flip": // overwrite one byte of the staged body of file F
@@ -332,6 +339,7 @@ func (s *sim) apply(a sAction, last bool) bool {
 			nw.settle()
 			st.Ops2 = int(atomic.LoadInt64(&s.opCount))
 			st.Crashed = true
+			st.Acked = atomic.LoadInt32(&s.ackedAt) == 1
 			if a.K2 > 0 {
 				if a.K2 > st.Ops2 {
 					ok = false // no such crash point inside the recovery (dying at rest after it is K of the next step)
@@ -384,6 +392,7 @@ func (s *sim) apply(a sAction, last bool) bool {
 var hookMu sync.Mutex
 
 func (s *sim) takeImage() {
+	atomic.StoreInt32(&s.ackedAt, atomic.LoadInt32(&s.acked))
 	img := vh.NewSandbox()
 	if err := vh.CopyTreeStamped(s.w.root, img); err != nil {
 		panic(err)
